@@ -251,10 +251,12 @@ let fam_ratec () =
   let vals = ints (ncells * nparams) in
   let ly = layout_of l in
   let conds c = int_of_nat c in
+  (* cells 2j and 2j+1 share the temperature and pressure drawn for cell 2j; the air density is 1 + (cell mod 3) *)
+  Array.iteri (fun c _ -> tt.(c) <- tt.(c - c mod 2); pp.(c) <- pp.(c - c mod 2)) tt;
   let procs = List.mapi (fun r (k, s, nt) ->
     let calc (c : int) (params : Obj.t list) : Obj.t =
       (match k with
-       | 0 -> let base = q_of_int (1000000 * r + 1000 * tt.(c) + 7 * pp.(c)) in
+       | 0 -> let base = q_of_int (1000000 * r + 1000 * tt.(c) + 7 * pp.(c) + 13 * (1 + c mod 3)) in
               mg (List.fold_left (fun acc (i, x) -> qadd acc (qmul (q_of_int (i + 1)) (qof x))) base
                     (List.mapi (fun i x -> (i, x)) params))
        | 1 -> mg (qmul (q_of_frac 1 2) (qof (List.hd params)))
